@@ -276,8 +276,26 @@ Theorem map_alloc_failure_safe_refuted :
 Proof. split; [|split; [|split]]; vm_compute; reflexivity. Qed.
 Print Assumptions map_alloc_failure_safe_refuted.
 
+(* what holds for BOTH shapes (the shapes only matter inside an operation that is refused: an operation that succeeds
+   does the same whatever they are): a history in which no step was refused - with or without a fuse set - followed by
+   both destructors leaves nothing outstanding and frees nothing twice or foreign *)
+Theorem map_alloc_failure_safe_partial : forall (ge gc : bool) (ops : list mop) (f : option nat) (minb thr : nat) w h, 0 < minb ->
+  run_ok ge gc ops (map0 0 minb thr, map0 1 minb thr) (heap0 f) = Some (w, h) ->
+  forall h1 ok1 h2 ok2, map_dtor (fst w) h = (h1, ok1) -> map_dtor (snd w) h1 = (h2, ok2) ->
+  ok1 = true /\ ok2 = true /\ live h2 = [] /\ bad h2 = false.
+Proof. exact map_balanced_any. Qed.
+Print Assumptions map_alloc_failure_safe_partial.
+
+(* satisfiable, past a rehash and a copy, also with a fuse that is never reached *)
+Example map_partial_example :
+  (exists w h, run_ok false false [MInsert true 1; MInsert true 2; MInsert true 3; MInsert true 4; MInsert true 5; MAssign false; MErase false 2]
+                       (map0 0 3 3, map0 1 3 3) (heap0 (Some 100)) = Some (w, h) /\ msize (fst w) = 4 /\ msize (snd w) = 5) /\
+  run_ok false false [MInsert false 1; MInsert false 2] (map0 0 3 3, map0 1 3 3) (heap0 (Some 3)) = None.
+Proof. split; [eexists; eexists; split; [vm_compute; reflexivity | split; reflexivity] | vm_compute; reflexivity]. Qed.
+
 (* the statement at the shapes found in this tree (GenMem.map_entry_guarded, GenMem.map_copy_guarded): destructors never
-   allocate, and - when the translator found both repaired shapes - the full guarantee *)
+   allocate, histories without a refused step are balanced, and - when the translator found both repaired shapes - the
+   full guarantee *)
 Theorem map_alloc_failure_safe_this_tree : map_safe_at map_entry_guarded map_copy_guarded.
 Proof. exact (map_safe_any map_entry_guarded map_copy_guarded). Qed.
 Print Assumptions map_alloc_failure_safe_this_tree.
